@@ -437,6 +437,7 @@ def run(tier: str) -> int:
     ck.add_src(['Tag_tagify', 'TagList_tagify'])
     __import__('srctie_c18').add_src_c18(ck, ['TagList_render', 'Tag_render'])   # render(): needs the op srcc18
     ck.extra_cov["protocol_per_instance_scenarios"] = __import__("flexhist").oracle(ck)
+    ck.extra_cov["odd_tagifiable_cases"] = __import__("flexhist").odd_tagifiable_oracle(ck)
     ck.correspond(holds=True)
     doc_oracle(ck, doc_cases)
     return ck.finish(shrink=make_shrinker(ck))
